@@ -16,15 +16,31 @@ def findall_stub(ev, args, kwargs, node):
     return ev.st.ghost["specs"]
 
 
-def setup(ev):
-    st = ev.st
-    specs = st.obj(st.ghost["specs"])
-    k = z3.Int("specs!k")
-    f, l = specs.cols
-    st.assume(mk_quant("forall", [k], z3.Implies(z3.And(0 <= k, k < specs.length), z3.And(
-        z3.Implies(f[k] != z3.StringVal(""), z3.And(int_ok(f[k]), int_of(f[k]) >= 0)),
-        z3.Implies(l[k] != z3.StringVal(""), z3.And(int_ok(l[k]), int_of(l[k]) >= 0)))),
-        patterns=[f[k], l[k]]))
+def watch_extra(ev):
+    """numeral values of the abstract findall groups, so a model can be turned into a real header"""
+    specs = ev.st.obj(ev.st.ghost["specs"])
+    out = {}
+    for i in range(8):
+        out["specs_val[%d][0]" % i] = int_of(specs.cols[0][z3.IntVal(i)])
+        out["specs_val[%d][1]" % i] = int_of(specs.cols[1][z3.IntVal(i)])
+    return out
+
+
+def model_to_inputs(m):
+    n = max(0, min(int(m.get("specs.len", 0)), 8))
+    parts = []
+    for i in range(n):
+        f = m.get("specs[%d][0]" % i, "")
+        l = m.get("specs[%d][1]" % i, "")
+        fs = "" if f == "" else str(max(0, int(m.get("specs_val[%d][0]" % i, 0))))
+        ls = "" if l == "" else str(max(0, int(m.get("specs_val[%d][1]" % i, 0))))
+        parts.append(fs + "-" + ls)
+    raw = m.get("range_raw_line", "")
+    if "=" not in raw:
+        header = "".join(ch for ch in raw if ch not in "0123456789-") or "x"
+    else:
+        header = raw.split("=", 1)[0] + "=" + ",".join(parts)
+    return {"header": header, "size": int(m.get("max_size", 0))}
 
 
 DEFS = {
@@ -47,11 +63,13 @@ PARSE_RANGE = Contract(
     params={"range_raw_line": Str, "max_size": Int},
     ghosts={"specs": List(Tup(Str, Str)), "x": Int},
     forall_ghosts=["x"],   # x is an arbitrary byte position: never assigned, so a proof for the symbol is a proof for all x
-    requires=["max_size >= 0"],
-    setup=setup,
+    requires=["max_size >= 0",
+              # A-re-1 + A-int-1: each group is "" or a numeral on which int() succeeds with a value >= 0
+              "forall(k, 0, len(specs), implies(specs[k][0] != '', int_ok(specs[k][0]) and int_of(specs[k][0]) >= 0)"
+              " and implies(specs[k][1] != '', int_ok(specs[k][1]) and int_of(specs[k][1]) >= 0))"],
     returns=List(Tup(Int, Int)),
     stubs={"re.findall": findall_stub},
-    ufuncs={"int_of": ([Str], Int)},
+    ufuncs={"int_of": ([Str], Int), "int_ok": ([Str], Bool)},
     defs=DEFS,
     ensures={
         "shape.nonempty": "len(result) >= 1",
@@ -81,9 +99,11 @@ PARSE_RANGE = Contract(
         "cov(result, x) == exists(j, 0, IDX, SEQ[j][0] <= x and x < SEQ[j][1])",
     ]},
     locals={"result": List(Tup(Int, Int))},
+    # lemma proved right after the comprehension: every computed end is clipped to the file size
+    cuts={"ranges": ["forall(k, 0, len(ranges), ranges[k][1] <= max_size)"]},
     canaries={"single": "len(result) <= 1"},
     assumptions=["A-re-1", "A-int-1", "A-sorted", "A-split"],
-    replay="c03:replay_parse_range",
+    watch_extra=watch_extra, model_to_inputs=model_to_inputs, native=("c03", "replay"),
 )
 
 
